@@ -16,6 +16,7 @@ import Proofs.C01_Raw
 import Proofs.C01_Image
 import Proofs.C01_Plain
 import Proofs.C01_ReadCompose
+import Proofs.Pins
 namespace Mammoth
 
 /-! ### wrapping in HTML elements adds no text -/
@@ -660,5 +661,15 @@ example : c01_noVMergeL c01_exMerge = false ∧
     c01_okAnd (readAll {} 12 {} c01_exMerge)
       (fun p => decide (c01_elemLeavesL p.1.elements = [.text S!"top"])) = true := by
   decide +kernel
+
+/-- The tables of the library that this property's theorems consume (regenerated from /repo's source on this run) still have the
+    content the model was validated against: the reader's dispatch table; the set of deliberately ignored elements; the behaviour of the HTML escape on the characters it replaces; the dingbat table (entries and checksums).  An edit of one of them in the library changes model and code
+    alike; it is this theorem that then no longer checks (`Proofs/Pins.lean`). -/
+theorem C01_tables_as_validated :
+    (Generated.handlers = pin_handlers) ∧
+    (sameSet Generated.ignored pin_ignored = true) ∧
+    (Generated.escapeTable = pin_escapeTable) ∧
+    (dingbatSums Generated.dingbats = (1061, 217117, 77998056)) :=
+  ⟨pins_handlers, pins_ignored, pins_escapeTable, pins_dingbats⟩
 
 end Mammoth
